@@ -406,12 +406,55 @@ func Normalize(fset *token.FileSet, pkgs []*packages.Package, known map[string]b
 		if len(n.newFn) == 0 {
 			continue
 		}
+		// temporaries and labels of earlier passes keep their names: start numbering above them
+		for _, f := range pk.Syntax {
+			ast.Inspect(f, func(x ast.Node) bool {
+				if id, ok := x.(*ast.Ident); ok && strings.HasPrefix(id.Name, "inl") {
+					k := 0
+					for _, ch := range id.Name[3:] {
+						if ch < '0' || ch > '9' {
+							break
+						}
+						k = k*10 + int(ch-'0')
+					}
+					if k > n.counter {
+						n.counter = k
+					}
+				}
+				return true
+			})
+		}
 		// leaf = unknown helper whose own body calls no unknown helper (bottom-up: deeper levels in later passes)
+		inlinable := map[*types.Func]bool{}
 		for obj, fd := range n.newFn {
-			leaf := true
+			ok := true
+			ast.Inspect(fd.Body, func(x ast.Node) bool {
+				switch y := x.(type) {
+				case *ast.FuncLit:
+					return false
+				case *ast.DeferStmt:
+					ok = false
+				case *ast.BranchStmt:
+					if y.Tok == token.GOTO {
+						ok = false
+					}
+				case *ast.CallExpr:
+					if id, isId := y.Fun.(*ast.Ident); isId && id.Name == "recover" {
+						ok = false
+					}
+				}
+				return true
+			})
+			if sig, isSig := obj.Type().(*types.Signature); isSig && sig.RecvTypeParams() != nil {
+				ok = false
+			}
+			inlinable[obj] = ok
+		}
+		for obj, fd := range n.newFn {
+			leaf := inlinable[obj]
 			ast.Inspect(fd.Body, func(x ast.Node) bool {
 				if call, ok := x.(*ast.CallExpr); ok {
-					if callee := n.calleeOf(call); callee != nil && n.newFn[callee] != nil {
+					if callee := n.calleeOf(call); callee != nil && n.newFn[callee] != nil && inlinable[callee] && callee != obj {
 						leaf = false
 					}
 				}
@@ -552,7 +595,167 @@ func (n *normalizer) nested(s ast.Node, caller string) []edit {
 	return eds
 }
 
+// leftmost returns the unknown-helper call that is evaluated first in e (before any other operand with a possible
+// effect), or nil: it may be hoisted in front of the statement without changing the order of evaluation.
+func (n *normalizer) leftmost(e ast.Expr) (*ast.CallExpr, *types.Func) {
+	for {
+		switch x := e.(type) {
+		case *ast.ParenExpr:
+			e = x.X
+		case *ast.UnaryExpr:
+			if x.Op == token.AND || x.Op == token.ARROW {
+				return nil, nil
+			}
+			e = x.X
+		case *ast.BinaryExpr:
+			e = x.X
+		case *ast.SelectorExpr:
+			e = x.X
+		case *ast.IndexExpr:
+			e = x.X
+		case *ast.StarExpr:
+			e = x.X
+		case *ast.CallExpr:
+			if call, callee, neg := n.target(x); call != nil && !neg {
+				return call, callee
+			}
+			// a method call on the result of a helper call: h(..).M(..) evaluates h first
+			if sel, ok := x.Fun.(*ast.SelectorExpr); ok {
+				if _, isPkg := n.pkg.TypesInfo.Uses[identOf(sel.X)].(*types.PkgName); !isPkg {
+					e = sel.X
+					continue
+				}
+			}
+			return nil, nil
+		default:
+			return nil, nil
+		}
+	}
+}
+
+func identOf(e ast.Expr) *ast.Ident {
+	id, _ := e.(*ast.Ident)
+	return id
+}
+
+// hoist rewrites statement s (text range of node whole) so that the leftmost helper call in expr is evaluated into a
+// temporary first.
+func (n *normalizer) hoist(whole ast.Node, expr ast.Expr, caller string, extra []edit, wrap bool) ([]edit, bool) {
+	call, callee := n.leftmost(expr)
+	if call == nil {
+		return nil, false
+	}
+	pre, temps, ok := n.inline(call, callee, caller)
+	if !ok || len(temps) != 1 {
+		return nil, false
+	}
+	inner := append(extra, edit{n.off(call.Pos()), n.off(call.End()), temps[0]})
+	body := applyEdits(n.text(whole), n.off(whole.Pos()), inner)
+	txt := pre + "\n" + body
+	if wrap {
+		txt = "{\n" + txt + "\n}"
+	}
+	return []edit{{n.off(whole.Pos()), n.off(whole.End()), txt}}, true
+}
+
+func allIdents(es []ast.Expr) bool {
+	for _, e := range es {
+		if _, ok := e.(*ast.Ident); !ok {
+			return false
+		}
+	}
+	return true
+}
+
 func (n *normalizer) rewriteStmt(s ast.Stmt, caller string) []edit {
+	type snap struct{ inl, skp, cnt int }
+	take := func() snap { return snap{len(n.res.Inlined), len(n.res.Skipped), n.counter} }
+	restore := func(x snap) {
+		n.res.Inlined = n.res.Inlined[:x.inl]
+		n.res.Skipped = n.res.Skipped[:x.skp]
+		n.counter = x.cnt
+	}
+	s0 := take()
+	eds, matched := n.rewriteStmt1(s, caller)
+	if matched {
+		return eds
+	}
+	// second chance: the helper call is the first thing the statement evaluates
+	var expr ast.Expr
+	wrap := true
+	switch st := s.(type) {
+	case *ast.ExprStmt:
+		expr = st.X
+	case *ast.AssignStmt:
+		if len(st.Rhs) == 1 && allIdents(st.Lhs) {
+			expr = st.Rhs[0]
+			wrap = st.Tok != token.DEFINE
+		}
+	case *ast.ReturnStmt:
+		if len(st.Results) >= 1 {
+			expr = st.Results[0]
+		}
+	case *ast.IfStmt:
+		if st.Init == nil {
+			expr = st.Cond
+		}
+	}
+	if expr != nil {
+		if call, _ := n.leftmost(expr); call != nil {
+			restore(s0)
+			var inner []edit
+			if st, ok := s.(*ast.IfStmt); ok {
+				inner = append(inner, n.rewriteBlock(st.Body, caller)...)
+				switch e := st.Else.(type) {
+				case *ast.BlockStmt:
+					inner = append(inner, n.rewriteBlock(e, caller)...)
+				case *ast.IfStmt:
+					inner = append(inner, n.rewriteStmt(e, caller)...)
+				}
+			}
+			if h, ok := n.hoist(s, expr, caller, inner, wrap); ok {
+				return h
+			}
+			restore(s0)
+			eds, _ = n.rewriteStmt1(s, caller)
+		}
+	}
+	n.reportUnmatched(s)
+	return eds
+}
+
+// reportUnmatched lists calls of unknown helpers that stay calls because of where they stand.
+func (n *normalizer) reportUnmatched(s ast.Stmt) {
+	ast.Inspect(s, func(x ast.Node) bool {
+		switch y := x.(type) {
+		case *ast.BlockStmt, *ast.CaseClause, *ast.CommClause:
+			return x == ast.Node(s)
+		case *ast.CallExpr:
+			if call, callee, _ := n.target(y); call != nil {
+				n.res.Skipped = append(n.res.Skipped, fmt.Sprintf("%s at %s: the call stands inside an expression that cannot be split without changing the order of evaluation", callee.Name(), n.fset.Position(call.Pos())))
+			}
+		}
+		return true
+	})
+}
+
+// rewriteStmt1 handles the direct statement forms; ok=false means "no direct form matched" (nested edits only).
+func (n *normalizer) rewriteStmt1(s ast.Stmt, caller string) ([]edit, bool) {
+	eds, matched := n.rewriteDirect(s, caller)
+	return eds, matched
+}
+
+func (n *normalizer) rewriteDirect(s ast.Stmt, caller string) ([]edit, bool) {
+	before := len(n.res.Inlined)
+	eds := n.rewriteStmt0(s, caller)
+	// a direct form matched iff it produced exactly one edit covering the whole statement
+	if len(eds) == 1 && eds[0].start == n.off(s.Pos()) && eds[0].end == n.off(s.End()) && len(n.res.Inlined) > before {
+		return eds, true
+	}
+	return eds, false
+}
+
+func (n *normalizer) rewriteStmt0(s ast.Stmt, caller string) []edit {
 	switch st := s.(type) {
 	case *ast.ExprStmt:
 		if call, callee, neg := n.target(st.X); call != nil && !neg {
@@ -665,11 +868,33 @@ func (n *normalizer) inline(call *ast.CallExpr, callee *types.Func, caller strin
 	fd := n.newFn[callee]
 	sig := callee.Type().(*types.Signature)
 	info := n.pkg.TypesInfo
-	if sig.Variadic() || call.Ellipsis.IsValid() {
-		return n.skip(call, callee, "variadic")
+	if sig.RecvTypeParams() != nil {
+		return n.skip(call, callee, "method of a generic type")
 	}
-	if sig.TypeParams() != nil || sig.RecvTypeParams() != nil {
-		return n.skip(call, callee, "generic")
+	// a generic helper: use the signature instantiated at this call and substitute the type arguments in the body
+	typeArgs := map[*types.TypeName]types.Type{}
+	if sig.TypeParams() != nil {
+		var id *ast.Ident
+		switch f := ast.Unparen(call.Fun).(type) {
+		case *ast.Ident:
+			id = f
+		case *ast.IndexExpr:
+			id, _ = f.X.(*ast.Ident)
+		case *ast.IndexListExpr:
+			id, _ = f.X.(*ast.Ident)
+		}
+		inst, ok := info.Instances[id]
+		if id == nil || !ok || inst.TypeArgs == nil || inst.TypeArgs.Len() != sig.TypeParams().Len() {
+			return n.skip(call, callee, "generic helper whose instantiation is not recorded")
+		}
+		for i := 0; i < sig.TypeParams().Len(); i++ {
+			typeArgs[sig.TypeParams().At(i).Obj()] = inst.TypeArgs.At(i)
+		}
+		isig, ok := inst.Type.(*types.Signature)
+		if !ok {
+			return n.skip(call, callee, "generic helper whose instantiation is not a signature")
+		}
+		sig = isig
 	}
 	if caller == callee.Name() {
 		return n.skip(call, callee, "recursive")
@@ -912,8 +1137,15 @@ func (n *normalizer) inline(call *ast.CallExpr, callee *types.Func, caller strin
 		}
 		bind(name, rt, expr, at)
 	}
-	if len(call.Args) != sig.Params().Len() {
+	nFixed := sig.Params().Len()
+	if sig.Variadic() {
+		nFixed--
+	}
+	if (!sig.Variadic() && len(call.Args) != nFixed) || (sig.Variadic() && len(call.Args) < nFixed) {
 		return n.skip(call, callee, "argument count differs from parameter count (multi-value call)")
+	}
+	if call.Ellipsis.IsValid() && len(call.Args) != nFixed+1 {
+		return n.skip(call, callee, "unsupported spread call")
 	}
 	var pnames []string
 	for _, f := range fd.Type.Params.List {
@@ -925,11 +1157,33 @@ func (n *normalizer) inline(call *ast.CallExpr, callee *types.Func, caller strin
 		}
 	}
 	for i, a := range call.Args {
+		if i >= nFixed {
+			break
+		}
 		var at types.Type
 		if tv, ok := info.Types[a]; ok && tv.Value == nil && !tv.IsNil() {
 			at = tv.Type
 		}
 		bind(pnames[i], sig.Params().At(i).Type(), n.text(a), at)
+	}
+	if sig.Variadic() {
+		vt := sig.Params().At(nFixed).Type() // []T
+		switch {
+		case call.Ellipsis.IsValid():
+			a := call.Args[nFixed]
+			bind(pnames[nFixed], vt, n.text(a), info.TypeOf(a))
+		case len(call.Args) == nFixed:
+			bind(pnames[nFixed], vt, "nil", nil)
+		default:
+			if !typeOK(vt) {
+				bad = "the variadic parameter type cannot be named at the call site"
+			}
+			var es []string
+			for _, a := range call.Args[nFixed:] {
+				es = append(es, n.text(a))
+			}
+			bind(pnames[nFixed], vt, types.TypeString(vt, qual)+"{"+strings.Join(es, ", ")+"}", nil)
+		}
 	}
 	// results
 	var temps []string
@@ -960,6 +1214,39 @@ func (n *normalizer) inline(call *ast.CallExpr, callee *types.Func, caller strin
 		n.counter--
 		return n.skip(call, callee, bad)
 	}
+	// type-parameter substitution edits (generic helpers); applied inside return expressions and in the rest of the body
+	var subst []edit
+	if len(typeArgs) > 0 {
+		okSubst := true
+		ast.Inspect(fd.Body, func(x ast.Node) bool {
+			id, ok := x.(*ast.Ident)
+			if !ok {
+				return true
+			}
+			if tn, ok := info.Uses[id].(*types.TypeName); ok {
+				if ta, isTP := typeArgs[tn]; isTP {
+					if !typeOK(ta) {
+						okSubst = false
+					}
+					subst = append(subst, edit{n.off(id.Pos()), n.off(id.End()), types.TypeString(ta, qual)})
+				}
+			}
+			return true
+		})
+		if !okSubst || bad != "" {
+			n.counter--
+			return n.skip(call, callee, "a type argument cannot be named at the call site")
+		}
+	}
+	textWith := func(a ast.Node) string {
+		var in []edit
+		for _, e := range subst {
+			if e.start >= n.off(a.Pos()) && e.end <= n.off(a.End()) {
+				in = append(in, e)
+			}
+		}
+		return applyEdits(n.text(a), n.off(a.Pos()), in)
+	}
 	// body with returns rewritten
 	label := fmt.Sprintf("inl%d", k)
 	var eds []edit
@@ -981,11 +1268,11 @@ func (n *normalizer) inline(call *ast.CallExpr, callee *types.Func, caller strin
 		case len(r.Results) == len(temps):
 			var es []string
 			for _, e := range r.Results {
-				es = append(es, n.text(e))
+				es = append(es, textWith(e))
 			}
 			as = strings.Join(temps, ", ") + " = " + strings.Join(es, ", ") + "\n"
 		case len(r.Results) == 1: // return f() with a multi-value f
-			as = strings.Join(temps, ", ") + " = " + n.text(r.Results[0]) + "\n"
+			as = strings.Join(temps, ", ") + " = " + textWith(r.Results[0]) + "\n"
 		default:
 			n.counter--
 			return n.skip(call, callee, "unsupported return form")
@@ -994,6 +1281,17 @@ func (n *normalizer) inline(call *ast.CallExpr, callee *types.Func, caller strin
 	}
 	for _, l := range labels {
 		eds = append(eds, edit{n.off(l.Pos()), n.off(l.End()), pfx + l.Name})
+	}
+	for _, se := range subst {
+		inRet := false
+		for _, r := range returns {
+			if se.start >= n.off(r.Pos()) && se.end <= n.off(r.End()) {
+				inRet = true
+			}
+		}
+		if !inRet {
+			eds = append(eds, se)
+		}
 	}
 	lb, rb := n.off(fd.Body.Lbrace)+1, n.off(fd.Body.Rbrace)
 	body := applyEdits(n.src[calleeFile][lb:rb], lb, eds)
